@@ -496,7 +496,7 @@ const BAD_LINES: &[&str] = &[
 
 /// (key, Number, Type); END / SVLEN / AC / CIEND carry their reserved definitions
 const OVL_POOL: &[(&str, &str, &str)] = &[
-    ("END", "1", "I"), ("MATEEND", "1", "I"), ("CIEND", "2", "I"), ("XEND", "1", "I"), ("ENDX", "1", "I"),
+    ("END", "1", "I"), ("MATEEND", "1", "I"), ("CIEND", "ci", "I"), ("XEND", "1", "I"), ("ENDX", "1", "I"),
     ("EN", "1", "I"), ("E", "1", "I"), ("END2", "1", "I"), ("ENDFLAG", "0", "B"), ("BEND", "1", "S"),
     ("SVLEN", "-", "I"), ("XSVLEN", ".", "I"), ("SVLENX", "1", "I"), ("LEN", "1", "I"), ("SV", "1", "S"),
     ("AC", "A", "I"), ("MLEAC", "A", "I"), ("ACX", "1", "I"), ("XAC", "1", "F"), ("A", "1", "C"),
@@ -554,7 +554,7 @@ fn ovl_field(rng: &mut Rng, i: usize) -> String {
     };
     let n = match num {
         "1" => 1,
-        "2" => 2,
+        "2" | "ci" => 2,
         _ => rng.range(1, 3) as usize,
     };
     let vals: Vec<String> = (0..n).map(|_| one(rng)).collect();
@@ -566,7 +566,15 @@ pub fn run_ovl(c: &Case) -> Obs {
     let info_text = String::from_utf8(unhex(&c.args[1])).expect("ascii");
     let infos: Vec<(String, String, String)> = OVL_POOL
         .iter()
-        .map(|(k, n, t)| (k.to_string(), if *n == "-" { svlen_number(ver).to_string() } else { n.to_string() }, t.to_string()))
+        .map(|(k, n, t)| {
+            // reserved definitions that differ between file format versions
+            let n = match *n {
+                "-" => svlen_number(ver),
+                "ci" => if is_v44(ver) { "." } else { "2" },
+                n => n,
+            };
+            (k.to_string(), n.to_string(), t.to_string())
+        })
         .collect();
     let header = match mk_header(ver, &infos, &[], &[]) {
         Ok(h) => h,
